@@ -2,6 +2,7 @@ import PqV.Lemmas.Varint
 import PqV.Lemmas.Bits
 import PqV.Lemmas.KVarint
 import PqV.Lemmas.KZigzag
+import PqV.Lemmas.KHybrid
 /-!
 # C11 — primitive codecs agree with the specification on their whole bounded domain
 
@@ -62,7 +63,48 @@ theorem spec_bitpack_len (w : Nat) (vs : List Nat) : (packLE w vs).length = (vs.
 theorem spec_unpack_count (w n : Nat) (bs : List Nat) : (unpackLE w n bs).length = n := by
   simp [unpackLE, unpackNat]
 
+/-- **`read_bitpacked` (129-169) refines the specification for EVERY bit width up to 24**, any number of
+    groups, any buffer position, 32-bit items: it stores the first `groups*8` values of the LSB-first bit
+    stream (as many as fit the output), consumes exactly the run's bytes (at least one: the first load is
+    unconditional) and never faults.  Widths 25..32 are the known finding (witnesses in Props/C03). -/
+theorem readBitpacked_refines (buf : List Nat) (hbytes : ∀ b ∈ buf, b < 256) (ip0 header w : Nat) (o : Out) (hw : w ≤ 24)
+    (h0 : ip0 < buf.length) (hbuf : ip0 + (header / 2 * 8 * w + 7) / 8 ≤ buf.length) :
+    readBitpacked buf ip0 header w o 4
+      = .ok ({ items := o.items ++ (List.range (min (header / 2 * 8) (o.cap / 4))).map (fun i => bitField w i (streamOf buf ip0)),
+               cap := o.cap - (min (header / 2 * 8) (o.cap / 4)) * 4 },
+             ip0 + max 1 ((header / 2 * 8 * w + 7) / 8)) :=
+  readBitpacked_ok buf hbytes ip0 header w o hw h0 hbuf
+
+/-- … and those values are the specification's `unpackLE` of the run's own bytes. -/
+theorem readBitpacked_values (buf : List Nat) (ip0 w n m : Nat) (hm : ip0 + m ≤ buf.length) (hnm : n * w ≤ 8 * m) :
+    (List.range n).map (fun i => bitField w i (streamOf buf ip0)) = unpackLE w n ((buf.drop ip0).take m) :=
+  stream_values_eq_unpackLE buf ip0 w n m hm hnm
+
+/-- **`read_rle` (24-52)** on a run written by any conforming encoder (width ≤ 32): the repeated value,
+    clipped to the room left in the output. -/
+theorem readRle_refines (p tail : List Nat) (hp : ∀ b ∈ p, b < 256) (ht : ∀ b ∈ tail, b < 256) (w c v header : Nat) (o : Out)
+    (hw : w ≤ 32) (hv : v < 2 ^ w) (hh : header / 2 = c) :
+    readRle (p ++ leBytes ((w + 7) / 8) v ++ tail) p.length header w o 4
+      = .ok ({ items := o.items ++ List.replicate (min c (o.cap / 4)) v, cap := o.cap - (min c (o.cap / 4)) * 4 },
+             p.length + (w + 7) / 8) :=
+  readRle_run p tail hp ht w c v header o hw hv hh
+
+/-- **`read_rle_bit_packed_hybrid` (192-213) equals the specification decoder** on every well-formed
+    stream of runs — any mixture of RLE and bit-packed runs, any run lengths — for widths 1..24. -/
+theorem readHybrid_refines (w : Nat) (hw1 : 1 ≤ w) (hw : w ≤ 24) (rs : List Run) (pre post : List Nat) (n : Nat)
+    (hok : ∀ r ∈ rs, r.wf w = true ∧ RunOk r) (hpre : ∀ b ∈ pre, b < 256) (hpost : ∀ b ∈ post, b < 256)
+    (hn : n ≤ (rs.flatMap Run.values).length) :
+    ∃ o' loc', readHybrid (pre ++ encodeRuns w rs ++ post) pre.length w (encodeRuns w rs).length { items := [], cap := 4 * n } 4
+        = .ok (o', loc') ∧ o'.items = decodeHybrid w n (encodeRuns w rs ++ post) :=
+  readHybrid_eq_spec w hw1 hw rs pre post n hok hpre hpost hn
+
 -- non-vacuity: concrete instances of the hypotheses
+example : ∀ r ∈ [Run.rle 3 5, Run.bp [1, 2, 3, 4, 5, 6, 7, 0]], r.wf 3 = true ∧ RunOk r := by
+  intro r hr
+  simp only [List.mem_cons, List.mem_nil_iff, or_false] at hr
+  rcases hr with rfl | rfl
+  · exact ⟨by decide, by simp [RunOk]⟩
+  · exact ⟨by decide, by simp [RunOk]⟩
 example : (300 : Nat) < 2 ^ 64 := by decide
 example : ∀ v ∈ [5, 0, 7, 3], v < 2 ^ 3 := by decide
 example : unpackLE 3 4 (packLE 3 [5, 0, 7, 3]) = [5, 0, 7, 3] := by decide
